@@ -176,6 +176,9 @@ func runCheck(id string, args []string) int {
 			defer func() { <-sem }()
 			bin := self
 			env := append(os.Environ(), "GOMAXPROCS=1", "GOMEMLIMIT=3GiB")
+			if j.sub.Parallel {
+				env = append(os.Environ(), "GOMAXPROCS=6", "GOMEMLIMIT=6GiB")
+			}
 			if j.sub.Race {
 				bin = raceBin
 				env = append(os.Environ(), "GORACE=halt_on_error=1 exitcode=66")
